@@ -54,7 +54,7 @@ Proof. reflexivity. Qed.
 Lemma iter_list_gen src lo hi kf : iter_list src lo hi kf = iter_gen (fun k (_ : flags) => kfind k src) lo hi kf.
 Proof. reflexivity. Qed.
 
-(* the key table stays sorted over ALL operation sequences (no hazard hypothesis) *)
+(* the key table stays sorted over ALL operation sequences (needs no simulation relation) *)
 Lemma revert_entry_sorted e n r st : ksorted (keys_of st) -> ksorted (keys_of (revert_entry e n r st)).
 Proof.
   destruct st as [[keys len] size]. unfold keys_of, revert_entry. cbn [fst]. intros HS.
@@ -85,7 +85,7 @@ Proof.
     destruct (stages1 s); [exact HS|]. unfold revert_to.
     pose proof (revert_n_sorted n (length (log1 s)) (log1 s) (keys1 s, len1 s, size1 s) HS) as Q.
     destruct (revert_n _ _ _ _) as [l' [[ks ln] sz]]. exact Q.
-  - unfold revert1. destruct (nth_error _ _) as [[c t]|]; [|exact HS]. unfold revert_to.
+  - unfold revert1. destruct (nth_error _ _) as [c|]; [|exact HS]. unfold revert_to.
     pose proof (revert_n_sorted c (length (log1 s)) (log1 s) (keys1 s, len1 s, size1 s) HS) as Q.
     destruct (revert_n _ _ _ _) as [l' [[ks ln] sz]]. exact Q.
 Qed.
@@ -116,10 +116,12 @@ Lemma below_kf n s kf d : below n (with_kf0 s kf d) = below n s.
 Proof. reflexivity. Qed.
 Lemma below_regs n s r : below n (with_regs0 s r) = below n s.
 Proof. reflexivity. Qed.
+Lemma below_lastcp n s c : below n (with_lastcp0 s c) = below n s.
+Proof. reflexivity. Qed.
 
 Lemma write0_below n k v s : n < depth0 s -> below n (write0 k v s) = below n s.
 Proof.
-  intros H. unfold write0. destruct (kfind k (top0 s)); [destruct (coalesces v0 v)|]; apply with_top0_below; exact H.
+  intros H. unfold write0. destruct (kfind k (top0 s)); [destruct (coalesces v0 v && unprotected0 k s)|]; apply with_top0_below; exact H.
 Qed.
 
 Lemma depth_with_top0 s j : depth0 (with_top0 s j) = depth0 s.
@@ -142,7 +144,7 @@ Proof.
     unfold below, depth0 in *. destruct (stages0 s) as [|j js]; cbn [fst stages0 base0 length] in *; [lia|].
     destruct (S (length js) - n) eqn:E; [lia|]. cbn [skipn]. replace (length js - n) with n0 by lia. reflexivity.
   - unfold revert0 in *. destruct (nth_error _ _); [|reflexivity]. cbn [fst] in *.
-    rewrite below_regs, below_kf. apply with_top0_below. exact H.
+    rewrite below_lastcp, below_regs, below_kf. apply with_top0_below. exact H.
 Qed.
 
 Lemma release0_keeps h s :
@@ -221,44 +223,3 @@ Proof.
     exists (k_flags ent). repeat split; [|assumption|assumption].
     apply kfind_some_in'. rewrite (sim_kf _ _ HS), live_find by apply (sim_sorted _ _ HS). rewrite Hf. unfold live_ent. rewrite Hnd. reflexivity.
 Qed.
-
-(* sequences without Checkpoint never meet the hazard *)
-Definition not_checkpoint (o : op) : bool := match o with OCheckpoint => false | _ => true end.
-Definition all_nil (regs : list (list (nat * bool))) : Prop := forall r, In r regs -> r = [].
-
-Lemma all_nil_hd regs : all_nil regs -> hd [] regs = [].
-Proof. destruct regs as [|r rs]; intros H; [reflexivity|]. apply H. left. reflexivity. Qed.
-Lemma all_nil_tl regs : all_nil regs -> all_nil (tl regs).
-Proof. destruct regs as [|r rs]; intros H; [exact H|]. intros x Hx. apply H. right. exact Hx. Qed.
-Lemma all_nil_cons regs : all_nil regs -> all_nil ([] :: regs).
-Proof. intros H x [<-|Hx]; [reflexivity|apply H; exact Hx]. Qed.
-
-Lemma step1_all_nil s o : not_checkpoint o = true -> all_nil (regs1 s) -> all_nil (regs1 (fst (step1 s o))).
-Proof.
-  intros Hc H. destruct o; cbn [step1 fst not_checkpoint] in *; try exact H; try discriminate.
-  - unfold set1. destruct (_ <? _)%N; [exact H|]. destruct (_ <? _)%N; [exact H|]. cbn [fst].
-    unfold setvalue1. set (t := touch1 _ _ s). change (regs1 s) with (regs1 t) in H.
-    destruct (kfind k (keys1 t)); [|exact H]. destruct (k_head k0); [|exact H].
-    destruct (_ && _); [|exact H]. cbn [regs1]. unfold taint. rewrite (all_nil_hd _ H). cbn [map].
-    apply all_nil_cons. apply all_nil_tl. exact H.
-  - unfold updflags1. destruct (_ <? _)%N; exact H.
-  - cbn [staging1 fst regs1]. apply all_nil_cons. exact H.
-  - unfold release1. destruct h; [exact H|]. destruct (negb _); [exact H|]. destruct (stages1 s); [exact H|]. cbn [fst regs1].
-    apply all_nil_tl. exact H.
-  - unfold cleanup1. destruct h; [exact H|]. destruct (_ <? _); [exact H|]. destruct (_ <? _); [exact H|].
-    destruct (stages1 s); [exact H|]. destruct (revert_to n s) as [l' [[ks ln] sz]]. cbn [fst regs1]. apply all_nil_tl. exact H.
-  - unfold revert1, reg1. rewrite (all_nil_hd _ H). destruct i; exact H.
-Qed.
-
-Lemma hazard_nil s o : all_nil (regs1 s) -> hazard1 s o = false.
-Proof. intros H. destruct o; try reflexivity. cbn [hazard1]. unfold reg1. rewrite (all_nil_hd _ H). destruct i; reflexivity. Qed.
-
-Lemma no_checkpoint_no_hazard ops : forall s, all_nil (regs1 s) -> forallb not_checkpoint ops = true -> no_hazard s ops = true.
-Proof.
-  induction ops as [|o r IH]; intros s H Hc; [reflexivity|].
-  cbn [forallb] in Hc. apply andb_true_iff in Hc. destruct Hc as [Hc1 Hc2].
-  cbn [no_hazard]. rewrite (hazard_nil _ _ H). cbn [negb andb]. apply IH; [apply step1_all_nil; assumption|exact Hc2].
-Qed.
-
-Lemma all_nil_init : all_nil (regs1 init1).
-Proof. intros r [<-|[]]. reflexivity. Qed.
